@@ -5,15 +5,6 @@ use crate::refmodel::*;
 use crate::searchrun::*;
 use crate::simodel::*;
 use proptest::prelude::*;
-use routee_compass::app::compass::config::frontier_model::combined::combined_service::CombinedFrontierService;
-use routee_compass::app::compass::config::frontier_model::road_class::road_class_parser::RoadClassParser;
-use routee_compass::app::compass::config::frontier_model::road_class::road_class_service::RoadClassFrontierService;
-use routee_compass::app::compass::config::frontier_model::turn_restrictions::turn_restriction_service::{
-    RestrictedEdgePair, TurnRestrictionFrontierService,
-};
-use routee_compass::app::compass::config::frontier_model::vehicle_restrictions::vehicle_restriction::VehicleRestriction;
-use routee_compass::app::compass::config::frontier_model::vehicle_restrictions::vehicle_restriction_row::RestrictionRow;
-use routee_compass::app::compass::config::frontier_model::vehicle_restrictions::vehicle_restriction_service::VehicleRestrictionFrontierService;
 use routee_compass_core::algorithm::search::search_instance::SearchInstance;
 use routee_compass_core::algorithm::search::util::edge_cut_frontier_model::EdgeCutFrontierModel;
 use routee_compass_core::model::frontier::frontier_model::FrontierModel;
@@ -75,6 +66,14 @@ pub struct C04Case {
     /// two models of the same type with one input file each
     #[serde(default)]
     pub split: bool,
+    /// the query writes number_of_axles as a JSON float (2.0): a vehicle description the
+    /// parser refuses - the query may be rejected, but never answered without the restrictions
+    #[serde(default)]
+    pub axles_as_float: bool,
+    /// before the judged query, the same *service* answers another vehicle (everything a
+    /// hundredth of the size) over all edges: nothing of it may carry over
+    #[serde(default)]
+    pub small_vehicle_first: bool,
 }
 
 pub struct C04;
@@ -90,6 +89,9 @@ pub const KIND_NAMES: [&str; 6] = [
 pub const DIST_NAMES: [&str; 5] = ["meters", "kilometers", "miles", "inches", "feet"];
 pub const WEIGHT_NAMES: [&str; 3] = ["pounds", "tons", "kg"];
 const CLASS_NAMES: [&str; 6] = ["motorway", "trunk", "primary", "secondary", "residential", "track"];
+/// the class ids written to the class file / sent in numeric queries: the whole u8 range incl.
+/// ids that collide modulo 64 and 128 (the generated classes 0..5 index this table)
+const CLASS_IDS: [u8; 6] = [0, 1, 64, 65, 129, 255];
 
 pub fn vehicle_value(v: &VehicleSpec, kind: u8) -> (f64, u8, bool) {
     // (value, unit, is weight)
@@ -127,7 +129,7 @@ impl C04Case {
                     json!(c.allowed.iter().map(|k| CLASS_NAMES[*k as usize % 6]).collect::<Vec<_>>()),
                 );
             } else {
-                q.insert("road_classes".into(), json!(c.allowed));
+                q.insert("road_classes".into(), json!(c.allowed.iter().map(|k| CLASS_IDS[*k as usize % 6]).collect::<Vec<_>>()));
             }
         }
         if let Some((_, v)) = &self.rows {
@@ -139,7 +141,7 @@ impl C04Case {
                     "total_length": [v.total_length.0, DIST_NAMES[v.total_length.1 as usize % 5]],
                     "trailer_length": [v.trailer_length.0, DIST_NAMES[v.trailer_length.1 as usize % 5]],
                     "total_weight": [v.total_weight.0, WEIGHT_NAMES[v.total_weight.1 as usize % 3]],
-                    "number_of_axles": v.axles,
+                    "number_of_axles": if self.axles_as_float { json!(v.axles as f64) } else { json!(v.axles) },
                 }),
             );
         }
@@ -171,13 +173,13 @@ impl C04Case {
         let mut models: Vec<Value> = vec![];
         let path = |name: &str| dir.file(name).to_string_lossy().to_string();
         if let Some(c) = &self.classes {
-            let text: String = c.per_edge.iter().map(|k| format!("{}\n", k)).collect();
+            let text: String = c.per_edge.iter().map(|k| format!("{}\n", CLASS_IDS[*k as usize % 6])).collect();
             write_text(&dir.file("classes.txt"), &text, false).map_err(|e| e.to_string())?;
             let mut m = serde_json::Map::new();
             m.insert("type".into(), json!("road_class"));
             m.insert("road_class_input_file".into(), json!(path("classes.txt")));
             if c.by_name {
-                let mapping: HashMap<String, u8> = (0..6u8).map(|k| (CLASS_NAMES[k as usize].to_string(), k)).collect();
+                let mapping: HashMap<String, u8> = (0..6usize).map(|k| (CLASS_NAMES[k].to_string(), CLASS_IDS[k])).collect();
                 m.insert("road_class_parser".into(), json!({"mapping": mapping}));
             }
             models.push(Value::Object(m));
@@ -243,11 +245,33 @@ impl C04Case {
         })
     }
     fn build_frontier(&self, state_model: Arc<routee_compass_core::model::state::state_model::StateModel>) -> Result<Arc<dyn FrontierModel>, String> {
-        if self.via_files {
+        // always through the builders (the services' struct literals are not used: a change of
+        // their fields must not break the harness build); `via_files` is kept for old replay files
+        {
             let dir = crate::engine::CaseDir::new();
             let q = self.query();
             let model: Arc<dyn FrontierModel> = match self.build_service_from_files(&dir)? {
-                Some(svc) => svc.build(&q, state_model).map_err(|e| e.to_string())?,
+                Some(svc) => {
+                    if let (true, Some(_)) = (self.small_vehicle_first, &self.rows) {
+                        let mut small = self.clone();
+                        small.axles_as_float = false;
+                        if let Some((_, sv)) = small.rows.as_mut() {
+                            for d in [&mut sv.height, &mut sv.width, &mut sv.total_length, &mut sv.trailer_length] {
+                                d.0 *= 0.01;
+                            }
+                            sv.total_weight.0 *= 0.01;
+                        }
+                        if let Ok(m0) = svc.build(&small.query(), state_model.clone()) {
+                            if let Ok(init) = state_model.initial_state() {
+                                for (e, (src, dst, len)) in self.net.edges.iter().enumerate() {
+                                    let edge = routee_compass_core::model::network::Edge::new(e, *src, *dst, *len);
+                                    let _ = m0.valid_frontier(&edge, &init, None, &state_model);
+                                }
+                            }
+                        }
+                    }
+                    svc.build(&q, state_model).map_err(|e| e.to_string())?
+                }
                 None => Arc::new(routee_compass_core::model::frontier::default::no_restriction::NoRestriction {}),
             };
             return if self.cut.is_empty() {
@@ -255,73 +279,6 @@ impl C04Case {
             } else {
                 Ok(Arc::new(EdgeCutFrontierModel::new(model, self.cut.iter().map(|e| EdgeId(*e)).collect())))
             };
-        }
-        let mut services: Vec<Arc<dyn FrontierModelService>> = vec![];
-        if let Some(c) = &self.classes {
-            let mapping: HashMap<String, u8> = (0..6u8).map(|k| (CLASS_NAMES[k as usize].to_string(), k)).collect();
-            let parser: RoadClassParser = if c.by_name {
-                serde_json::from_value(json!({"mapping": mapping})).map_err(|e| e.to_string())?
-            } else {
-                RoadClassParser::default()
-            };
-            services.push(Arc::new(RoadClassFrontierService {
-                road_class_lookup: Arc::new(c.per_edge.clone().into_boxed_slice()),
-                road_class_parser: parser,
-            }));
-        }
-        if let Some((rows, v)) = &self.rows {
-            let mut lookup: HashMap<EdgeId, Vec<VehicleRestriction>> = HashMap::new();
-            for r in rows {
-                let is_w = r.kind <= 1;
-                let row = RestrictionRow {
-                    edge_id: EdgeId(r.edge),
-                    restriction_name: KIND_NAMES[r.kind as usize % 6].to_string(),
-                    restriction_value: row_value(v, r),
-                    restriction_unit: if is_w {
-                        WEIGHT_NAMES[r.unit as usize % 3].to_string()
-                    } else {
-                        DIST_NAMES[r.unit as usize % 5].to_string()
-                    },
-                };
-                let restriction = row.to_restriction().map_err(|e| e.to_string())?;
-                lookup.entry(EdgeId(r.edge)).or_default().push(restriction);
-            }
-            services.push(Arc::new(VehicleRestrictionFrontierService {
-                vehicle_restriction_lookup: Arc::new(lookup),
-            }));
-        }
-        if !self.turns.is_empty() {
-            let set: HashSet<RestrictedEdgePair> = self
-                .turns
-                .iter()
-                .map(|(a, b)| RestrictedEdgePair {
-                    prev_edge_id: EdgeId(*a),
-                    next_edge_id: EdgeId(*b),
-                })
-                .collect();
-            services.push(Arc::new(TurnRestrictionFrontierService {
-                restricted_edge_pairs: Arc::new(set),
-            }));
-        }
-        let q = self.query();
-        let model: Arc<dyn FrontierModel> = if services.len() == 1 && !self.force_combined {
-            services[0].build(&q, state_model).map_err(|e| e.to_string())?
-        } else if services.is_empty() {
-            Arc::new(routee_compass_core::model::frontier::default::no_restriction::NoRestriction {})
-        } else {
-            CombinedFrontierService {
-                inner_services: services,
-            }
-            .build(&q, state_model)
-            .map_err(|e| e.to_string())?
-        };
-        if self.cut.is_empty() {
-            Ok(model)
-        } else {
-            Ok(Arc::new(EdgeCutFrontierModel::new(
-                model,
-                self.cut.iter().map(|e| EdgeId(*e)).collect(),
-            )))
         }
     }
     fn search_case(&self) -> SearchCase {
@@ -377,7 +334,7 @@ impl Prop for C04 {
         "C04"
     }
     fn rule(&self) -> String {
-        "generated: network x road-class table with per-query allowed set (numbers or mapped names) x vehicle-restriction rows (6 kinds, 5 distance / 3 weight units, built through the CSV row parser, values pushed >= 1 % away from the vehicle's value) with vehicle parameters in other units x restricted-turn pairs x any combination through the combined model x optional cut edges (EdgeCutFrontierModel) x all algorithms x vertex/edge orientation x optional destination; the real application-level frontier models are built either through the application's builders from configuration JSON and generated input files (class file, restriction CSV with repeated rows per edge and kind, turn CSV; same-type models split over two files inside combined) or in memory from their services. Oracle: independent allowed(edge) predicate with SI unit factors on every route edge and tree branch, and the restricted-pair list on every consecutive route pair. non-trivial = the unrestricted search's route uses a forbidden edge or turn (the restriction changed the answer)".to_string()
+        "generated: network x road-class table with per-query allowed set (numbers or mapped names) x vehicle-restriction rows (6 kinds, 5 distance / 3 weight units, built through the CSV row parser, values pushed >= 1 % away from the vehicle's value) with vehicle parameters in other units x restricted-turn pairs x any combination through the combined model x class ids over the whole u8 range (0, 1, 64, 65, 129, 255) x a vehicle description the parser refuses (axles as a float: rejected or judged, never unrestricted) x another, smaller vehicle answered first by the same service x optional cut edges (EdgeCutFrontierModel) x all algorithms x vertex/edge orientation x optional destination; the real application-level frontier models are built either through the application's builders from configuration JSON and generated input files (class file, restriction CSV with repeated rows per edge and kind, turn CSV; same-type models split over two files inside combined) or in memory from their services. Oracle: independent allowed(edge) predicate with SI unit factors on every route edge and tree branch, and the restricted-pair list on every consecutive route pair. non-trivial = the unrestricted search's route uses a forbidden edge or turn (the restriction changed the answer)".to_string()
     }
     fn cases(&self, tier: Tier) -> u32 {
         tier.pick(50_000, 2_000_000)
@@ -445,11 +402,11 @@ impl Prop for C04 {
                     any::<bool>(),
                     prop_oneof![3 => Just(vec![]), 1 => proptest::collection::vec(any::<u16>(), 1..4).prop_map(move |v| v.into_iter().map(|e| pick_idx(e, m)).collect())],
                     any_alg(),
-                    (any::<bool>(), any::<u16>(), any::<u16>(), proptest::bool::weighted(0.85), proptest::bool::weighted(0.15), any::<bool>()),
+                    (any::<bool>(), any::<u16>(), any::<u16>(), proptest::bool::weighted(0.85), proptest::bool::weighted(0.15), any::<bool>(), proptest::bool::weighted(0.1), proptest::bool::weighted(0.3)),
                 )
             })
             .prop_map(|(net, classes, rows, turns, force_combined, cut, alg, misc)| {
-                let (edge_o, a, b, with_dest, via_files, split) = misc;
+                let (edge_o, a, b, with_dest, via_files, split, axles_as_float, small_vehicle_first) = misc;
                 let n = net.n();
                 let m = net.m();
                 let edge_oriented = edge_o && m >= 2;
@@ -473,6 +430,8 @@ impl Prop for C04 {
                     d,
                     via_files,
                     split,
+                    axles_as_float,
+                    small_vehicle_first,
                 }
             })
             .boxed()
@@ -503,8 +462,14 @@ impl Prop for C04 {
             Ok(b) => b.si,
             Err(_) => return o,
         };
+        o.label_if(case.axles_as_float && case.rows.is_some(), "axles-written-as-float");
+        o.label_if(case.small_vehicle_first && case.rows.is_some(), "another-vehicle-first-on-the-same-service");
         let frontier = match case.build_frontier(base.state_model.clone()) {
             Ok(f) => f,
+            Err(_) if case.axles_as_float && case.rows.is_some() => {
+                o.label("query-with-unreadable-vehicle-rejected");
+                return o;
+            }
             Err(e) => {
                 o.fail("C04/frontier-model/build-error", json!({"error": e, "query": case.query()}));
                 return o;
